@@ -149,7 +149,7 @@ fn run_top(r: Reader, v: &Val, bytes: &[u8], vlen: usize, with_follower: bool) -
 /// in-struct skip (sync only): {10: V, 11: i8 5} -> field_begin, skip, field_end, next field must
 /// be (i8, 11) = 5, then stop. This is how generated code and the unchecked reader's `skip`
 /// contract (called right after a field header) use it.
-fn run_in_struct(prot: Prot, v: &Val) -> Result<(), (String, String)> {
+pub(crate) fn run_in_struct(prot: Prot, v: &Val) -> Result<(), (String, String)> {
     let outer = Val::Struct(vec![(10, v.clone()), (11, Val::I8(5))]);
     let bytes = rc::encode(prot.wire(), &outer);
     let vlen = rc::encode(prot.wire(), v).len();
@@ -190,7 +190,7 @@ fn run_in_struct(prot: Prot, v: &Val) -> Result<(), (String, String)> {
 
 /// the same in-struct sequence through the async readers: a skipped value must leave the reader's
 /// field-id context (compact) exactly as a decoded one would
-fn run_in_struct_async(prot: Prot, mode: Mode, v: &Val) -> Result<(), (String, String)> {
+pub(crate) fn run_in_struct_async(prot: Prot, mode: Mode, v: &Val) -> Result<(), (String, String)> {
     let outer = Val::Struct(vec![(10, v.clone()), (11, Val::I8(5))]);
     let bytes = rc::encode(prot.wire(), &outer);
     let (script, shared) = Script::new(bytes, mode, std::ptr::null_mut());
